@@ -29,6 +29,11 @@ impl TimeUntil for Instant {
     }
 }
 
+/// The longest timeout that is armed in a `DelayQueue` at once. `DelayQueue` panics on timeouts
+/// of roughly 2^36 ms (a little over two years) or more, so longer deadlines are armed in steps:
+/// when a timer armed with this span fires before the deadline, it is armed again.
+pub const MAX_TIMER_SPAN: Duration = Duration::from_secs(365 * 24 * 60 * 60);
+
 /// Collection compaction; configurable `shrink_to_fit`.
 pub trait Compact {
     /// Compacts space if the ratio of length : capacity is less than `usage_ratio_threshold`.
